@@ -102,6 +102,28 @@ def cases(tier):
                                    'truth': [tv.get(i) for i in range(n)],
                                    'else': has_else, 'reref': rr,
                                    'syntax': s}
+    # condition values that are callable *and* render themselves when
+    # given the namespace (DTML methods, scripts): a name-form condition
+    # uses the second protocol, once; an expression gets the object
+    for n in (1, 2, 3):
+        for kinds in itertools.product(('name', 'callexpr', 'nameexpr'),
+                                       repeat=n):
+            for truth in itertools.product((0, 1), repeat=n):
+                for has_else in (0, 1):
+                    for rr in [None] + [(f, k) for k in range(n)
+                                        for f in ('var', 'if', 'expr')]:
+                        idx += 1
+                        yield {'form': 'if', 'kinds': list(kinds),
+                               'truth': list(truth), 'else': has_else,
+                               'reref': rr, 'rwn': 1,
+                               'syntax': syntaxes[idx % 3]}
+    for kind in ('name', 'callexpr', 'nameexpr'):
+        for truth in (0, 1):
+            for form in ('unless', 'call'):
+                idx += 1
+                yield {'form': form, 'kinds': [kind], 'truth': [truth],
+                       'else': 0, 'reref': None, 'rwn': 1,
+                       'syntax': syntaxes[idx % 3]}
     # chains that test the same name again in a later condition, with
     # callables whose result changes from call to call: the later condition
     # must reuse the value of the first evaluation
@@ -136,6 +158,13 @@ def cases(tier):
                        'else': 0, 'reref': None, 'syntax': s}
     yield {'form': 'special'}
     yield {'form': 'late'}
+    for rows in (50, 150, 201, 250, 700):
+        for conds in ('tmpl', 'probe'):
+            for wrap in ('in', 'try'):
+                idx += 1
+                yield {'form': 'many', 'rows': rows, 'conds': conds,
+                       'wrap': wrap, 'kinds': [], 'truth': [], 'else': 0,
+                       'reref': None, 'syntax': syntaxes[idx % 3]}
     # a conditional left by an exception (handled by an enclosing try) or
     # by dtml-return (in a sub-template): what it remembered is gone, the
     # next conditional evaluates the name afresh
@@ -290,7 +319,7 @@ def build(case):
                 false = ['seq', 'tuple', []]
             else:
                 false = ['lit', false]
-            ns['c%d' % i] = ['probe', i,
+            ns['c%d' % i] = ['rwn' if case.get('rwn') else 'probe', i,
                              ['lit', 'T%d' % i] if truth[i] else false]
     if case['form'] == 'abort':
         ns = {'c0': ['probeseq', 0, [['lit', v] for v in case['vals']]],
@@ -328,6 +357,29 @@ def build(case):
         else:
             then = [['call', N('c0')], ['if', [[N('c0'), [T('y')]]], [T('n')]]]
         return [T('<')] + first + [T('|')] + then + [T('>')], ns
+    if case['form'] == 'many':
+        # scale: hundreds of conditionals in one rendering whose conditions
+        # are documents without defaults of their own (DTML methods) and
+        # logging callables; every one behaves like the first
+        rows = case['rows']
+        ns = {'rows': ['seq', 'list', [['lit', i] for i in range(rows)]],
+              't0': ['tmpl', [['if', [[E("_['sequence-item'] % 3 == 0"),
+                                       [T('y')]]], None]], {}],
+              't1': ['tmpl', [['if', [[E("_['sequence-item'] % 3 == 1"),
+                                       [T('z')]]], None]], {}],
+              'c0': ['probe', 0, ['lit', '']], 'c1': ['probe', 1,
+                                                      ['lit', 'T']]}
+        a, b = (N('t0'), N('t1')) if case['conds'] == 'tmpl' else \
+            (N('c0'), N('c1'))
+        body = [['if', [[a, [T('A')]], [b, [T('B'), ['var', b, []]]]],
+                 [T('C')]],
+                ['unless', a, [T('u')]], ['call', b]]
+        if case['wrap'] == 'in':
+            nodes = [T('<'), ['in', N('rows'), body, None, []], T('>')]
+        else:
+            nodes = [T('<'), ['in', N('rows'), [
+                ['try', body, [[[], [T('!')]]], None]], None, []], T('>')]
+        return nodes, ns
     if case['form'] == 'repeat':
         ns = {'s2': ['seq', 'list', [['lit', 10], ['lit', 20]]]}
         for k in (0, 1):
